@@ -202,11 +202,14 @@ CLAIMS = {
                 "file after a successful run with cleanup), C14_commit_last (in the trace of directory states after the initial purge and "
                 "after every single write, clusters.pkl is absent from every state before its own write: an interrupted run leaves no "
                 "final cluster file), C14_purge_first, C14_trace_result. Correspondence/oracle: crash injected at every file effect, stale "
-                "directories, re-runs with same/changed/fewer inputs compared with fresh-directory runs.",
+                "directories, re-runs with same/changed/fewer inputs compared with fresh-directory runs."
+                + GEN.format(src="multiround._pickle_dump_atomic (open / pickle.dump / close / os.replace as effect records; theorems C14_code_dump_effects, "
+                                 "C14_code_dump_atomic: an observer of the final name sees the old content before the last effect and the complete object "
+                                 "after it - the single atomic write of the model; BBProofs/GenEq9.lean)", prop="C14"),
         "note": TB + "PARTIAL: a crash falls between two Python-level file effects or inside one (leaving a prefix); power loss, page-cache "
                 "and directory-entry durability are not modelled; purge and cleanup are single trace steps. Models the repaired protocol "
                 "(fix b141a19).",
-        "technique": "Lean 4 theorems over workflow trace model + exhaustive crash-point injection",
+        "technique": TGEN + " (exhaustive crash-point injection)",
     },
     "C13": {
         "text": "Extensional equality, on the common domain, of a Lean transcription of each C++ kernel (aligned flag an input, uint32/uint64 "
